@@ -237,6 +237,17 @@ pub fn gen_handshake(r: &mut Rng) -> Handshake {
             },
             user,
             tail,
+            // reserved bytes: zeros as a rule; MariaDB-style extended capabilities in the last
+            // four; anything
+            reserved: match r.below(6) {
+                0 => {
+                    let mut v = vec![0u8; 19];
+                    v.extend_from_slice(&(r.next() as u32).to_le_bytes());
+                    v
+                }
+                1 => r.bytes(23),
+                _ => vec![],
+            },
         },
     }
 }
@@ -861,6 +872,7 @@ pub fn gen_program(r: &mut Rng, o: &ProgOpts) -> Program {
         ret_err: None,
         probe_cells: false,
         pull_params: None,
+        pull_skip: 0,
     }
 }
 
@@ -874,6 +886,7 @@ pub fn simple_ok_program() -> Program {
         ret_err: None,
         probe_cells: false,
         pull_params: None,
+        pull_skip: 0,
     }
 }
 
@@ -885,6 +898,21 @@ pub fn query_text(r: &mut Rng) -> Blob {
             "SELECT @", "SELEC", "SELECT  ", "usé ", "UPDATE t SET c = '",
         ];
         let pool = ['é', '€', 'ñ', 'ж', '中', '🦀', 'a', '1', ' ', '\'', ',', 'ß'];
+        // statements tagged by connectors and ORMs: a leading comment (or whitespace) in front
+        // of text that would be answered by the library or routed to on_init if it stood alone
+        let tags: &[&str] = &[
+            "/* mysql-connector-j-8.0.33 */", "/* app:web,ctl:users */ ", "/**/", "/* */  ", "-- x\n", "#x\n", " ", "\t", "\n", "(",
+            "/*! 40101 */", "/*+ MAX_EXECUTION_TIME(5) */ ",
+        ];
+        let tagged: &[&str] = &["SELECT @@max_allowed_packet", "select @@version_comment limit 1", "USE `shop`;", "use db", "SELECT 1", "SELECT @@socket"];
+        if r.chance(1, 5) {
+            let mut t = String::from(*r.pick(tags));
+            t.push_str(*r.pick(tagged));
+            let v = t.into_bytes();
+            if crate::model::route_query(&v) == crate::model::QRoute::Query {
+                return Blob::Lit(v);
+            }
+        }
         let mut t = String::from(*r.pick(heads));
         for _ in 0..r.below(12) {
             t.push(*r.pick(&pool));
